@@ -20,12 +20,19 @@ def sh(cmd, cwd=ROOT, check=False):
 
 pid = sys.argv[1]
 sb = f"/tmp/b_{pid}"
+rc, dirty = sh(["git", "status", "--porcelain", "--untracked-files=no"])
+if dirty.strip():
+    print("working tree not clean; commit first:\n" + dirty)
+    sys.exit(1)
 sh(["git", "fetch", "-q", f"{sb}/verif", pid], check=True)
 ours_kf = json.load(open(os.path.join(ROOT, "known_findings.json")))
 rc, theirs_txt = sh(["git", "show", "FETCH_HEAD:known_findings.json"])
 theirs_kf = json.loads(theirs_txt) if rc == 0 else {"findings": []}
 rc, out = sh(["git", "merge", "--no-commit", "--no-ff", "FETCH_HEAD"])
 print(out)
+if rc != 0 and "CONFLICT" not in out:
+    print("merge did not start")
+    sys.exit(1)
 rc, st = sh(["git", "diff", "--name-only", "--diff-filter=U"])
 conflicts = [l for l in st.splitlines() if l.strip()]
 auto = {"known_findings.json", "MANIFEST.json", "lean/LinfaSpec/Props/All.lean"}
